@@ -158,6 +158,8 @@ def scaled_contracts(cfg_kinds, ns, sL, sr, sT, analytic=True):
 def compare_runs(b, tag, base, scaled, sL, sr, sT, G_scaled_expected, what):
     """base / scaled: (paths, cfg) of two runs; obligations relating them"""
     (pb, cb), (ps, cs) = base, scaled
+    if len(pb) == 1 and len(ps) == 1 and pb[0].outcome == "raise" and ps[0].outcome == "raise" and getattr(pb[0].value, "typ", "") == "NotImplementedError":
+        return          # configuration rejected by the real starting-condition driver in both runs
     if len(pb) != 1 or len(ps) != 1 or pb[0].outcome != "return" or ps[0].outcome != "return":
         b.subset_exits.append(f"{KEY} [{tag}]: unexpected paths")
         return
@@ -330,7 +332,7 @@ def _alone_vs_together(b, stack, nondim=True):
         b.subset_exits.append(f"{KEY} [{tag}]: {e}")
         return
     st_t = pt[0].state
-    if st_t.mem.sig:
+    if st_t.mem.sig or pt[0].outcome != "return":
         return
     for ti, name in enumerate(TYPES):
         try:
